@@ -210,6 +210,12 @@ func runC13With(c *c13Case, srv *c13Server, server *lime.Server, env *c13Env) *c
 	obs.SrvState = string(sc.State())
 	obs.SrvRcvDone = doneClosed(sc.RcvDone())
 	obs.SrvStreamsClosed = streamsClosed(sc)
+	if !obs.SrvStreamsClosed && obs.SrvRcvDone {
+		// the receiver closes its done signal and then its streams, one after the other: in real time this goroutine can look
+		// in between (in virtual time settle has already let it finish)
+		env.settle(0, func() bool { return streamsClosed(sc) })
+		obs.SrvStreamsClosed = streamsClosed(sc)
+	}
 	if c.Initiator == "server-close" {
 		for _, t := range env.serverTrans() {
 			obs.InitiatorConnLater = obs.InitiatorConnLater || t.Connected()
@@ -345,6 +351,17 @@ func TestC13Replay(t *testing.T) {
 		o := &Outcome{}
 		var obs *c13Obs
 		if c.Real {
+			// real sockets: schedule-dependent, so a replay may be repeated (VERIF_REPS)
+			for rep := 0; rep < envInt("VERIF_REPS", 1); rep++ {
+				o = &Outcome{}
+				obs = runC13Real(&c)
+				judgeC13(&c, obs, o)
+				if os.Getenv("VERIF_DEBUG") != "" && len(o.Violations) > 0 {
+					b, _ := json.Marshal(obs)
+					t.Logf("rep %d obs: %s", rep, b)
+				}
+				rec.Eval(&c, o)
+			}
 			continue
 		}
 		synctest.Test(t, func(t *testing.T) { obs = runC13Virtual(&c) })
